@@ -36,6 +36,51 @@ impl Drop for Handle {
 }
 
 static IDLE: Mutex<Vec<Sender<(Job, Arc<Done>)>>> = Mutex::new(Vec::new());
+/// pooled threads addressed by index: which OS thread runs which simulated task is then a function of the
+/// plan (task id / deterministic child slot), not of which thread happened to become idle first
+static BY_INDEX: Mutex<Vec<Option<Sender<(Job, Arc<Done>)>>>> = Mutex::new(Vec::new());
+
+fn spawn_indexed() -> Sender<(Job, Arc<Done>)> {
+    let (tx, rx) = channel::<(Job, Arc<Done>)>();
+    std::thread::Builder::new()
+        .stack_size(crate::exec::TASK_STACK)
+        .spawn(move || {
+            crate::guard::thread_altstack();
+            while let Ok((job, done)) = rx.recv() {
+                let _ = std::panic::catch_unwind(std::panic::AssertUnwindSafe(job));
+                let mut g = done.m.lock().unwrap();
+                *g = true;
+                done.cv.notify_all();
+            }
+        })
+        .expect("spawn pool thread");
+    tx
+}
+
+/// run on the pooled thread with this index (created on first use; jobs for one index queue up)
+pub fn run_on(index: usize, job: Job, fresh: bool) -> Handle {
+    if fresh && FRESH.load(std::sync::atomic::Ordering::Relaxed) {
+        return run_static_opt(job, true);
+    }
+    let done = Arc::new(Done { m: Mutex::new(false), cv: Condvar::new() });
+    let tx = {
+        let mut g = BY_INDEX.lock().unwrap();
+        if g.len() <= index {
+            g.resize_with(index + 1, || None);
+        }
+        g[index].get_or_insert_with(spawn_indexed).clone()
+    };
+    tx.send((job, done.clone())).expect("pool thread alive");
+    Handle { done, waited: false }
+}
+
+pub fn run_scoped_on<'a>(index: usize, job: Box<dyn FnOnce() + Send + 'a>) -> Handle {
+    let job: Job = unsafe { std::mem::transmute::<Box<dyn FnOnce() + Send + 'a>, Job>(job) };
+    run_on(index, job, false)
+}
+
+/// set per plan (cfg.fresh_threads): do not reuse threads
+pub static FRESH: std::sync::atomic::AtomicBool = std::sync::atomic::AtomicBool::new(false);
 
 fn spawn_worker() -> Sender<(Job, Arc<Done>)> {
     let (tx, rx) = channel::<(Job, Arc<Done>)>();
@@ -58,7 +103,26 @@ fn spawn_worker() -> Sender<(Job, Arc<Done>)> {
 }
 
 pub fn run_static(job: Job) -> Handle {
+    run_static_opt(job, false)
+}
+
+/// `fresh`: a brand-new OS thread for this job (only when the plan asks for it)
+pub fn run_static_opt(job: Job, fresh: bool) -> Handle {
     let done = Arc::new(Done { m: Mutex::new(false), cv: Condvar::new() });
+    if fresh && FRESH.load(std::sync::atomic::Ordering::Relaxed) {
+        let d2 = done.clone();
+        std::thread::Builder::new()
+            .stack_size(crate::exec::TASK_STACK)
+            .spawn(move || {
+                crate::guard::thread_altstack();
+                let _ = std::panic::catch_unwind(std::panic::AssertUnwindSafe(job));
+                let mut g = d2.m.lock().unwrap();
+                *g = true;
+                d2.cv.notify_all();
+            })
+            .expect("spawn fresh task thread");
+        return Handle { done, waited: false };
+    }
     let tx = IDLE.lock().unwrap().pop().unwrap_or_else(spawn_worker);
     tx.send((job, done.clone())).expect("pool thread alive");
     Handle { done, waited: false }
